@@ -620,3 +620,13 @@ V("c25-twin-local-set-renamed", "C25", "-", "dask_array/io/_store.py", None, Non
   ("dask_array/io/_store.py", "_LOCAL_SCHEDULERS = frozenset(", "_IN_PROCESS = frozenset("),
   ("dask_array/io/_store.py", "        return active not in _LOCAL_SCHEDULERS", "        return active not in _IN_PROCESS"),
 ])
+
+V("c03-chunks-match-allclose", "C03", "R03.5", "dask_array/_expr.py",
+  "        len(da) == len(db) and all(sa == sb or (math.isnan(sa) and math.isnan(sb)) for sa, sb in zip(da, db))\n",
+  "        len(da) == len(db) and bool(np.allclose(np.asarray(da, dtype=float), np.asarray(db, dtype=float), equal_nan=True))\n", expect="_chunks_match")
+V("c03-chunks-match-within-one", "C03", "R03.5", "dask_array/_expr.py",
+  "        len(da) == len(db) and all(sa == sb or (math.isnan(sa) and math.isnan(sb)) for sa, sb in zip(da, db))\n",
+  "        len(da) == len(db) and all(abs(sa - sb) < 1 or (math.isnan(sa) and math.isnan(sb)) for sa, sb in zip(da, db))\n", expect="_chunks_match")
+V("c03-twin-chunks-match-shortcut", "C03", "-", "dask_array/_expr.py",
+  "    if len(a) != len(b):\n        return False\n    return all(\n        len(da) == len(db) and all(sa == sb",
+  "    if len(a) != len(b):\n        return False\n    if a is b:\n        return True\n    return all(\n        len(da) == len(db) and all(sa == sb", twin=True)
